@@ -73,3 +73,64 @@ def exact_lengths():
     for c in CUTS:
         out.update((c - 1, c, c + 1))
     return sorted(out)
+
+
+def plain_listing(n):
+    """n instructions in stream normal form: mostly `nop`, every 97th with operands, a distinct last one."""
+    L = []
+    addr = 0x400000
+    for q in range(n):
+        if q == n - 1:
+            L.append((format(addr, "x"), "hlt", []))
+        elif q % 97 == 5:
+            L.append((format(addr, "x"), "mov", ["%rax", "%rbx"]))
+        else:
+            L.append((format(addr, "x"), "nop", []))
+        addr += 1 + q % 3
+    return L
+
+
+def exact_length_case(n):
+    """Stream of a listing of exactly n instructions vs the text the statement prescribes; -> None or a deviation dict."""
+    from . import jasm_io
+    from .model import stream_text
+    from .render import render
+
+    L = plain_listing(n)
+    r = jasm_io.stream_of(render(L))
+    if r[0] == "inconclusive":
+        return {"inconclusive": True}
+    if r[0] != "ok":
+        return {"kind": "exception", "instructions": n, "error": list(r[1:])}
+    want = stream_text(L)
+    if r[1] != want:
+        got = r[1]
+        k = next((i for i, (x, y) in enumerate(zip(got, want)) if x != y), min(len(got), len(want)))
+        return {"kind": "long-listing-stream-differs", "instructions": n, "expected_records": n, "observed_records": got.count("|"), "first_difference_at_char": k,
+                "expected_there": want[max(0, k - 30): k + 40], "observed_there": got[max(0, k - 30): k + 40]}
+    return None
+
+
+def run_exact_lengths(rep, prop_eval_cls, lengths=None):
+    """Shared `extra` part of C08 and C10: every length in exact_lengths(), 16-way."""
+    import multiprocessing as mp
+
+    lengths = lengths or exact_lengths()
+    with mp.get_context("fork").Pool(16, maxtasksperchild=1) as pool:
+        for n, dev in pool.imap_unordered(_exact_worker, sorted(lengths, reverse=True), chunksize=1):
+            ev = prop_eval_cls()
+            ev.tags = ["exact-length-listing"]
+            ev.nontrivial = True
+            ev.keys = [("exact-length", n)]
+            ev.subcases = n
+            if dev and dev.get("inconclusive"):
+                ev.inconclusive += 1
+            elif dev:
+                ev.deviations.append(dev)
+            rep.add_eval({"exact_length": n}, ev)
+    rep.extra["exact_length_listings"] = {"lengths": len(lengths), "largest": max(lengths)}
+    rep.exhaustive_parts.append(f"synthetic listings of every length in {{c-1, c, c+1}} for the {len(CUTS)} chunk-size candidates")
+
+
+def _exact_worker(n):
+    return n, exact_length_case(n)
